@@ -11,7 +11,7 @@ from sa.fd import Sym
 from sa.pm import FuncInfo, call_name, norm, self_attr, walk_local_ordered
 from sa.report import Ob, rule
 
-from .common import ob, strip_ret, traces
+from .common import local_defs, ob, single_return_expr, strip_ret, traces
 
 BASE = 'zeroconf._services.browser._ServiceBrowserBase'
 ADDED, REMOVED, UPDATED = Sym('ServiceStateChange.Added'), Sym('ServiceStateChange.Removed'), Sym('ServiceStateChange.Updated')
@@ -253,6 +253,96 @@ def flush(ctx: Any) -> List[Ob]:
     return obs
 
 
+@rule('C04.REPLAY', 'D', expect_min=12)
+def replay(ctx: Any) -> List[Ob]:
+    """A browser that starts after records were learned reports what the cache holds: the listener registration replays to the
+    new listener exactly the cached records that have not expired and answer one of its questions (same class, same type or
+    ANY, same name), as (record, None) pairs through the same two-phase contract (update, then complete), and says nothing
+    when there is nothing to replay."""
+    R = 'C04.REPLAY'
+    prog = ctx.prog
+    obs: List[Ob] = []
+    rm = prog.cls('zeroconf._handlers.record_manager.RecordManager')
+    g = rm.methods.get('_async_update_matching_records')
+    if g is None:
+        raise AnalysisError('anchor vanished: RecordManager._async_update_matching_records')
+    # (a) selection table of the replay
+    comps = [c for c in ast.walk(g.node) if isinstance(c, (ast.ListComp, ast.GeneratorExp, ast.SetComp))]
+    loops = [n for n in ast.walk(g.node) if isinstance(n, ast.For)]
+    for expired in (True, False):
+        for answers in (True, False):
+            atoms = {'.is_expired()': expired, '.answered_by()': answers}
+            took = set()
+            und: List[str] = []
+            for c in comps:
+                evl = fd.Evaluator(prog, g.module, atoms)
+                ok: Any = True
+                for gen in c.generators:
+                    for cond in gen.ifs:
+                        v = evl.ev(cond)
+                        if v is fd.UNKNOWN:
+                            und.append(norm(cond))
+                            ok = None
+                        elif not evl._truth(v) and ok is not None:
+                            ok = False
+                took.add(bool(ok))
+            if not comps and loops:
+                def eff_t(node: Any, evl: Any) -> List[Any]:
+                    return ['TAKE' for c_ in fd.node_calls(node, evl) if call_name(c_) in ('append', 'add')]
+
+                oc, und2 = traces(ctx, g, atoms, eff_t, loop_bound=1, for_iter=lambda n, e: True)
+                took = {('TAKE' in t) for t in oc}
+                und += [u for u in und2 if 'records' not in u]
+            want = (not expired) and answers
+            obs.append(ob(R, g, f'cached record: {"expired" if expired else "live"}, {"answers" if answers else "does not answer"} the question', f'it is {"replayed" if want else "not replayed"} to the new listener', took == {want} and not und, f'replayed on {sorted(took)}; undecided {und}'))
+    # (b) what answers a question
+    ab = prog.func('zeroconf._dns.DNSQuestion.answered_by')
+    rec = ab.params[1]
+    anyt = prog.const('zeroconf.const', '_TYPE_ANY')
+    e = single_return_expr(ab)
+    for same_c in (True, False):
+        for qtype, rtype in ((12, 12), (12, 33), (anyt, 33)):
+            for same_n in (True, False):
+                atoms = {f'{ab.params[0]}.class_': 1, f'{rec}.class_': 1 if same_c else 255, f'{ab.params[0]}.type': qtype, f'{rec}.type': rtype,
+                         f'{ab.params[0]}.name': 'n.local.', f'{rec}.name': 'n.local.' if same_n else 'm.local.', f'{ab.params[0]}.key': 'n.local.', f'{rec}.key': 'n.local.' if same_n else 'm.local.'}
+                v = fd.Evaluator(prog, ab.module, atoms).ev(e)
+                want = same_c and (qtype == rtype or qtype == anyt) and same_n
+                obs.append(ob(R, ab, f'question type {qtype} / record type {rtype}, class {"equal" if same_c else "different"}, name {"equal" if same_n else "different"}', f'answered_by is {want}', v is not fd.UNKNOWN and bool(v) == want, f'evaluates to {v!r}'))
+    # (c) the two-phase contract of the replay
+    def eff_p(node: Any, evl: Any) -> List[Any]:
+        out = []
+        for c_ in fd.node_calls(node, evl):
+            if call_name(c_) == 'async_update_records':
+                out.append('UPDATE')
+            elif call_name(c_) == 'async_update_records_complete':
+                out.append('COMPLETE')
+        return out
+
+    rec_local = [n_ for n_, vs in local_defs(g).items() if any(isinstance(v, (ast.ListComp, ast.List)) for v in vs if v is not None)]
+    for some in (True, False):
+        atoms = {n_: (['pair'] if some else []) for n_ in rec_local}
+        oc, _ = traces(ctx, g, atoms, eff_p, loop_bound=1, for_iter=lambda n, e: False)
+        got = {tuple(x for x in strip_ret(t) if x in ('UPDATE', 'COMPLETE')) for t in oc}
+        want_p = {('UPDATE', 'COMPLETE')} if some else {()}
+        obs.append(ob(R, g, f'{"some" if some else "no"} cached records answer the questions', 'the new listener gets one update call followed by one completion call' if some else 'the new listener is not called', got == want_p and bool(rec_local), f'calls on the paths: {sorted(got)}'))
+    pairs = [c for c in ast.walk(g.node) if isinstance(c, ast.Call) and call_name(c) == 'RecordUpdate']
+    obs.append(ob(R, g, pairs[0] if pairs else 'RecordUpdate(record, None)', 'a replayed record is reported as new (no previous copy)', len(pairs) == 1 and len(pairs[0].args) == 2 and norm(pairs[0].args[1]) == 'None'))
+    # (d) registering with a question replays; the browser registers with one PTR question per type
+    al = rm.methods['async_add_listener']
+    p_q = al.params[2]
+
+    def eff_a(node: Any, evl: Any) -> List[Any]:
+        out = ['ADD' for c_ in fd.node_calls(node, evl) if call_name(c_) == 'add' and isinstance(c_.func, ast.Attribute) and self_attr(c_.func.value, al.params[0]) == 'listeners']
+        out += ['REPLAY' for c_ in fd.node_calls(node, evl) if call_name(c_) == '_async_update_matching_records']
+        return out
+
+    for q in (True, False):
+        oc, _ = traces(ctx, al, {p_q: fd.Sym('question') if q else None, 'isinstance()': True}, eff_a)
+        got = {tuple(x for x in strip_ret(t) if x in ('ADD', 'REPLAY')) for t in oc}
+        obs.append(ob(R, al, f'listener added {"with" if q else "without"} a question', 'the listener is registered' + (' and the cache is replayed to it' if q else ' (no replay)'), got == ({('ADD', 'REPLAY')} if q else {('ADD',)}), f'effects: {sorted(got)}'))
+    return obs
+
+
 EXPLANATION = (
     'C04.AFTERCACHE (decided): call-graph reachability -- the pre-cache handler of every browser class reaches no user callback '
     'or event queue; delivery happens only in the post-cache handler, and no cache mutation can follow the completion call. '
@@ -264,6 +354,7 @@ EXPLANATION = (
 EXPLANATION_ADDENDUM = (
     ' C04.EXPIRY (necessary): the purge report reaches every listener (what is handed to the per-listener loop is re-iterable). C04.PREVIOUS also requires one (new, previous) pair per datagram record (a list, not a store keyed by record identity).'
 )
+EXPLANATION_ADDENDUM += ' C04.REPLAY (decided): a listener registered with questions is replayed exactly the live cached records that answer them, through the two-phase contract.'
 EXPLANATION = EXPLANATION + EXPLANATION_ADDENDUM
 
-RULES = [aftercache, previous, expiry, identity, precedence, classify, flush]
+RULES = [aftercache, previous, expiry, identity, precedence, classify, flush, replay]
